@@ -62,6 +62,14 @@ def run(res, programs, tier):
             res.rule("R05.6", "(shared with C05)")
             c05._r05_4(res, P, P.name)
             c05._r05_6(res, P, P.name)
+    for P in programs:
+        if P.config == "feat" and P not in sub and "dashu_float" in P.units:
+            # the deserialisers live in the all-features build only
+            res.rule("R05.4a", "(shared with C05)")
+            res.rule("R05.4b", "(shared with C05)")
+            res.rule("R05.6", "(shared with C05)")
+            c05._r05_4(res, P, P.name)
+            c05._r05_6(res, P, P.name)
     for rid, txt in (("R16.1a", "(shared with C16)"), ("R16.1b", "(shared with C16)"), ("R16.1c", "(shared with C16)"), ("R16.4", "(shared with C16)")):
         res.rule(rid, txt)
     for P in sub:
